@@ -4,6 +4,7 @@ import (
 	"fmt"
 	"net/http"
 	"net/http/httptest"
+	"net/url"
 	"sort"
 	"strconv"
 	"strings"
@@ -19,6 +20,9 @@ import (
 //        the WWW-Authenticate value of that response is parsed with the six real Parse… functions.
 //        Model line is enriched with the well-known URL net/url derived from <res> ("-" = url.Parse
 //        failed): that derivation is library behaviour the model does not contain.
+//   emits <k> (<res> <nAS> <cid> <flag> <csec> <dcid> <dcsec>)*k
+//        a HISTORY of k SetOAuthResourceMetadata calls on ONE server, then a real 401: the client must read the LAST
+//        accepted configuration
 //   build <url> <cid> <flag> <csec> <dcid> <dcsec>
 //        buildWWWAuthenticate on an arbitrary (unvalidated) URL and field values, then the six parsers.
 //   validate <res> <nAS> <cid> <flag> <csec> <dcid> <dcsec>      OAuthResourceMetadata.Validate
@@ -44,6 +48,8 @@ func init() {
 					continue
 				}
 				switch f[0] {
+				case "emits":
+					return true
 				case "emit":
 					if len(f) == 8 && (f[3] != "x" || f[4] == "true" || f[5] != "x" || f[6] != "x" || f[7] != "x") {
 						return true
@@ -121,8 +127,10 @@ func c28GenPchars(r *Rng, n int, extra string) string {
 			sb.WriteByte(c28Unreserved[r.Intn(len(c28Unreserved))])
 		case x < 15:
 			sb.WriteByte(c28SubDelims[r.Intn(len(c28SubDelims))])
-		case x < 17:
+		case x < 16:
 			fmt.Fprintf(&sb, "%%%02X", r.Intn(256))
+		case x < 17:
+			sb.WriteString(Pick(r, []string{"%22", "%5C", "%20", "%2C", "%3D", "%22", "%5c", "%2c%20client_id%3D%22x", "%22%2C%20client_id%3D"}))
 		case x < 18 && extra != "":
 			sb.WriteByte(extra[r.Intn(len(extra))])
 		default:
@@ -310,6 +318,26 @@ func c28Gen(g *Gen) {
 			nas = r.Range(2, 3)
 		}
 		lines := []string{"emit " + c28MetaArgs(res, nas, cid, flag, csec, dcid, dcsec)}
+		if r.Chance(60) { // a configuration history on one server: rotate / drop fields under the same or another resource
+			k := r.Range(1, 3)
+			hist := fmt.Sprintf("emits %d", k)
+			curRes := res
+			for j := 0; j < k; j++ {
+				if j > 0 && r.Chance(30) {
+					curRes = c28GenURL(r)
+				}
+				rj, nj := curRes, 1
+				if r.Chance(8) {
+					rj = Pick(r, []string{"", "http://[::1", "https://h/%zz"})
+				}
+				if r.Chance(5) {
+					nj = 0
+				}
+				pe := Pick(r, []int{20, 50, 80})
+				hist += " " + c28MetaArgs(rj, nj, c28GenField(r, pe), r.Chance(40), c28GenField(r, pe), c28GenField(r, pe), c28GenField(r, pe))
+			}
+			lines = append(lines, hist)
+		}
 		if r.Chance(50) {
 			lines = append(lines, "validate "+c28MetaArgs(res, nas, cid, flag, csec, dcid, dcsec))
 		}
@@ -468,6 +496,24 @@ func c28Oracle(c *Case, line, url string, m *vgirpc.OAuthResourceMetadata, got [
 	}
 }
 
+// c28LocationOracle: independently of the code's own derivation, the URL the client reads must name the RFC 9728
+// well-known document of the resource: same scheme and host, path = well-known prefix + the resource's path.
+func c28LocationOracle(c *Case, line, resource, readURL string) {
+	u, err := url.Parse(resource)
+	if err != nil || u.Host == "" || u.Opaque != "" {
+		return
+	}
+	r, err := url.Parse(readURL)
+	want := "/.well-known/oauth-protected-resource" + strings.TrimSuffix(u.Path, "/")
+	if err != nil || r.Scheme != u.Scheme || r.Host != u.Host || r.Path != want {
+		got := "unparsable"
+		if err == nil {
+			got = r.Scheme + "://" + r.Host + " path " + strconv.Quote(r.Path)
+		}
+		c.Oracle("resource-metadata-url-wrong-location", fmt.Sprintf("%s: resource %q: client reads %q (%s), expected %s://%s path %q", line, resource, readURL, got, u.Scheme, u.Host, want))
+	}
+}
+
 func c28Exec(c *Case) {
 	for _, l := range c.Lines {
 		f := strings.Fields(l)
@@ -544,6 +590,11 @@ func c28Exec(c *Case) {
 			}
 			h := vals[0]
 			ps, got := c28Parsed(h)
+			if !strings.Contains(m.Resource, "\"") {
+				// the Resource itself holds no raw quote (RFC 3986): the client must recover the advertised URL and fields
+				c28Oracle(c, l, murl, m, got)
+				c28LocationOracle(c, l, m.Resource, got[0])
+			}
 			if strings.Contains(murl, "\"") {
 				c.Stat("emit-quoted-url")
 				c.Out("hdr "+XS(h), "p "+ps)
@@ -553,8 +604,73 @@ func c28Exec(c *Case) {
 			if m.ClientID == "" && m.DeviceCodeClientID != "" {
 				c.Stat("emit-ok-dcid-without-cid")
 			}
-			c28Oracle(c, l, murl, m, got)
 			c.Out(ml, "h "+c28Canonical(h)+" p "+ps)
+		case f[0] == "emits" && len(f) >= 2:
+			// a configuration HISTORY on one server, then a real 401
+			k, _ := strconv.Atoi(f[1])
+			if k < 1 || len(f) != 2+7*k {
+				c.Out(l, "err:bad-op")
+				continue
+			}
+			hs := vgirpc.NewHttpServer(vgirpc.NewServer())
+			hs.SetAuthenticate(func(*http.Request) (*vgirpc.AuthContext, error) {
+				return nil, &vgirpc.RpcError{Type: "ValueError", Message: "unauthorized"}
+			})
+			ml := "emits " + f[1]
+			var steps []string
+			var last *vgirpc.OAuthResourceMetadata
+			lastURL := ""
+			for i := 0; i < k; i++ {
+				g := f[2+7*i : 2+7*(i+1)]
+				nas, _ := strconv.Atoi(g[1])
+				m := c28Meta(UnXS(g[0]), nas, UnXS(g[2]), g[3] == "true", UnXS(g[4]), UnXS(g[5]), UnXS(g[6]))
+				murl, uerr := vgirpc.VerifC28MetadataURL(m.Resource)
+				menr := XS(murl)
+				if uerr != nil {
+					menr = "-"
+				}
+				ml += " " + menr + " " + strings.Join(g, " ")
+				if err := hs.SetOAuthResourceMetadata(m); err != nil {
+					steps = append(steps, c28ErrKind(err))
+				} else {
+					steps = append(steps, "ok")
+					last, lastURL = m, murl
+				}
+			}
+			hs.InitPages()
+			req := httptest.NewRequest("POST", "/some_method", nil)
+			req.Header.Set("Content-Type", "application/vnd.apache.arrow.stream")
+			w := httptest.NewRecorder()
+			hs.ServeHTTP(w, req)
+			vals := w.Header().Values("WWW-Authenticate")
+			pre := "steps=" + strings.Join(steps, ",") + " "
+			c.Stat(fmt.Sprintf("emits-%d", k))
+			if last == nil {
+				if len(vals) != 0 {
+					c.Oracle("challenge-without-accepted-configuration", fmt.Sprintf("%s: %q", l, vals))
+					c.Out(ml, pre+"h "+c28Canonical(vals[0]))
+				} else {
+					c.Out(ml, pre+"none")
+				}
+				continue
+			}
+			if w.Code != http.StatusUnauthorized || len(vals) != 1 {
+				c.Oracle("no-challenge-on-401", fmt.Sprintf("%s: status %d, %d WWW-Authenticate values", l, w.Code, len(vals)))
+				c.Out(ml, pre+"err:no-challenge")
+				continue
+			}
+			h := vals[0]
+			ps, got := c28Parsed(h)
+			if !strings.Contains(last.Resource, "\"") {
+				// the property on the LAST accepted configuration
+				c28Oracle(c, l, lastURL, last, got)
+				c28LocationOracle(c, l, last.Resource, got[0])
+			}
+			if strings.Contains(lastURL, "\"") {
+				c.Out("hdr "+XS(h), "p "+ps)
+				continue
+			}
+			c.Out(ml, pre+"h "+c28Canonical(h)+" p "+ps)
 		default:
 			c.Out(l, "err:bad-op")
 		}
